@@ -99,6 +99,11 @@ Fixpoint check_corr (c : case) : bool :=
   | CVoltTol amp off res vs o_np o_loop o_pub =>
       volt_tol_corr amp off res vs (volt_numpy amp off res vs) o_np && volt_tol_corr amp off res vs (volt_loop amp off res vs) o_loop
       && volt_tol_corr amp off res vs (volt_public amp off res vs) o_pub
+      (* round 6: EXACT also here: the binary64 model rounds every operation like the code (the public entry point behind
+         its resolution guard; the internal variants only behind it, as for CVolt) *)
+      && volt_eqb (volt_public64 amp off res vs) o_pub
+      && (if (res <? 1) || (16 <? res) then true
+          else volt_eqb (volt_numpy64 amp off res vs) o_np && volt_eqb (volt_loop64 amp off res vs) o_loop)
   | CVolt amp off res vs o_np o_loop o_pub =>
       if res <? 1 then volt_eqb OErr o_pub        (* the internal variants are only meaningful behind the guard *)
       else if 16 <? res then                       (* behind the guard too, but their uint16 wrap-around is modelled *)
